@@ -86,6 +86,26 @@ def c09_groups(pl, res, groups, tier, cov, tag):
     return n_checked
 
 
+def declared_missing(case, obs):
+    """C10 "nothing left out": every declared definition and extern value of an accepted build is in the output"""
+    files = {tuple(f["rel"][:-3].split("/")): f.get("proj") for f in obs.get("files", [])}
+    missing = []
+    for m in case["input"]["mods"]:
+        proj = files.get(tuple(m["path"]))
+        if proj is None:
+            missing.append("/".join(m["path"]) + ".rs")
+            continue
+        for d in m["defs"]:
+            it = proj["items"].get(d["name"])
+            if it is None or it.get("count") != 1 or it.get("k") not in ("struct", "enum"):
+                missing.append("::".join(m["path"] + [d["name"]]))
+        have = {e["name"] for e in proj["evals"]}
+        for e in m["evals"]:
+            if e["name"] not in have:
+                missing.append("::".join(m["path"]) + "::get_" + e["name"])
+    return missing
+
+
 def rand_graphs(pid, tier, pl, res, cov):
     from . import randgraph, trace
     n = 300 if tier == "quick" else 6000
@@ -97,7 +117,8 @@ def rand_graphs(pid, tier, pl, res, cov):
     runs = []
     for r in range(3 if pid == "C09" else 1):
         obs_path, _ = harness.replay(path, os.path.join(pl.dir, f"rand_rp{r}"),
-                                     ["--emit-dir", os.path.join(pl.dir, f"rand_emit{r}"), "--style-seed", str(seed()), "--events"], jobs=8)
+                                     ["--emit-dir", os.path.join(pl.dir, f"rand_emit{r}"), "--style-seed", str(seed()), "--events"]
+                                     + (["--project"] if r == 0 else []), jobs=8)
         runs.append({o["id"]: o for o in tlc.read_ndjson(obs_path)})
     n_eval = 0
     # step-level trace validation of the loop (LoopTrace.tla): every logged step of every run must be the
@@ -136,6 +157,13 @@ def rand_graphs(pid, tier, pl, res, cov):
                 res.violation(f"random graph: build {o['outcome']} ({str(o.get('msg'))[:80]}) but the declarative oracle evaluated by TLC "
                               f"on the recorded input disagrees (verdict / list of unresolvable types)",
                               payload(dict(c, group="graph-random"), o), "C10:generated-name" if c["id"] in kf_ids else None)
+        for c in cs:
+            o = runs[0][c["id"]]
+            if o["accepted"]:
+                miss = declared_missing(c, o)
+                if miss:
+                    res.violation(f"random graph: the build succeeded but {miss[:3]} is missing from the output",
+                                  payload(dict(c, group="graph-random"), o), "C10:generated-name" if c["id"] in kf_ids else None)
         acc = sum(1 for c in cs if runs[0][c["id"]]["accepted"])
         cov["random_graphs"] = {"n": len(cs), "accepted": acc, "nonterm": sum(1 for c in cs if runs[0][c["id"]].get("class") == "nonterm")}
     cov["traces_validated_against_impl"] += n_eval
@@ -223,6 +251,19 @@ def run_graph(pid, tier):
         for k in ("states", "transitions", "traces_validated_against_impl"):
             cov[k] += bc[k]
         cov["checker_cmd"] += " ; " + bc["checker_cmd"]
+        # a third family through the file system: the result must not depend on what an earlier build
+        # (here: the same tree at the other pointer width) left in the output directory
+        d3 = os.path.join(WORK, "run", f"graph3-{tier}")
+        pl3 = Pipeline(tier, module="MC_Files", cfgs={"quick": ["MC_Files_q1.cfg"], "thorough": ["MC_Files_q1.cfg"]}, name="graph3",
+                       replay_flags=["--emit-dir", os.path.join(d3, "emit"), "--via-fs"])
+        dirty_obs, _ = harness.replay(pl3.cases_path, os.path.join(pl3.dir, "dirty"),
+                                      ["--emit-dir", os.path.join(pl3.dir, "emit_dirty"), "--via-fs", "--dirty-out", "--style-seed", str(seed())])
+        for (case, clean), dirty in zip(pl3.pairs(), tlc.read_ndjson(dirty_obs)):
+            n_checked += 1
+            if outcome_sig(clean) != outcome_sig(dirty):
+                res.violation("the result of pyxis::build depends on what an earlier build left in the output directory",
+                              payload(case, clean, {"clean": clean.get("files"), "after_other_build": dirty.get("files")}))
+        cov["inputs_files_dirty_outdir"] = pl3.total
     # ---- direction B: random graphs beyond the exhaustive bounds, natural hash order, TLC as oracle
     n_rand = rand_graphs(pid, tier, pl, res, cov)
     n_checked += n_rand
